@@ -70,6 +70,7 @@ class State:
         self.next_oid = [0]
         self.calls = []         # recorded external calls (C12, C06, C11)
         self.isn = set()
+        self.sav = None         # Seq[Ty]: classes whose savorize/sweeten hook ran
 
     def fork(self):
         s = State.__new__(State)
@@ -83,6 +84,7 @@ class State:
         s.next_oid = self.next_oid
         s.calls = list(self.calls)
         s.isn = set(self.isn)
+        s.sav = self.sav
         return s
 
     def assume(self, cond):
